@@ -16,6 +16,7 @@ APPEND = {
     "datetime_find.rs": "src/datetime/find.rs",
     "std_specs.rs": "src/utils/const_fns.rs",
     "parse_tz_file.rs": "src/parse/tz_file.rs",
+    "rule.rs": "src/timezone/rule.rs",
 }
 
 
@@ -30,7 +31,8 @@ def prepare(repo, work):
             shutil.copy(os.path.join(repo, f), os.path.join(dst, f))
     os.makedirs(os.path.join(dst, ".cargo"), exist_ok=True)
     open(os.path.join(dst, ".cargo", "config.toml"), "w").write("[net]\noffline = true\n")
-    for h, target in APPEND.items():
+    extra = dict(x.split("=") for x in os.environ.get("KANI_EXTRA", "").split(",") if "=" in x)
+    for h, target in list(APPEND.items()) + list(extra.items()):
         hp = os.path.join(VERIF, "kani", h)
         tp = os.path.join(dst, target)
         if os.path.exists(hp) and os.path.exists(tp):
